@@ -786,7 +786,7 @@ pub fn exec(song: &mut Song, tokens: &Vec<Token>) -> bool {
                     '-' => c = SValue::from_i(a.to_i() - b.to_i()),
                     '*' => c = SValue::from_i(a.to_i() * b.to_i()),
                     '/' => c = a.div(b),
-                    '%' => c = SValue::from_i(if b.to_i() == 0 { 0 } else { a.to_i() % b.to_i() }), // x % 0 = 0 (like x / 0)
+                    '%' => c = SValue::from_i(if b.to_i() == 0 { 0 } else { a.to_i().wrapping_rem(b.to_i()) }), // x % 0 = 0 (like x / 0)
                     _ => {
                         song.add_log(String::from("[Calc] unknown flag"));
                     }
